@@ -61,7 +61,7 @@ type c04Case struct {
 
 const c04Rule = "case = protocol (ipfix | nf9) + 2..6 (exporter address, template id) slots (IPv4 4-byte, IPv4-mapped, IPv6; ids shared across exporters; adversarial pairs that collide on the cache's " +
 	"full 32-bit FNV-1 hash, share a shard, or share a shard and have the same text when address and id are written without separator; found by searching ~1.5M keys) + 2..30 operations: announce (alone or with data in the same message), re-announce with a different definition " +
-	"(same record length with other elements, same elements with other field lengths, or a fresh template), data under the model's current template, data for a never-announced slot, peer Get (ipfix), and messages mixing data sets and (re-)announcements of several ids of one exporter in any order; " +
+	"(same record length with other elements, same elements with other field lengths, a fresh template, or fields of length zero: then data naming the id must yield nothing), data under the model's current template, data for a never-announced slot, peer Get (ipfix), and messages mixing data sets and (re-)announcements of several ids of one exporter in any order; " +
 	"invariant after every step = decode equals the reference expectation under the model's template for exactly that slot, unannounced slots give an 'unknown template' error and no records, peer Get returns the model's template or 'not available'; " +
 	"non-trivial = a re-announcement followed by data, or >= 2 exporters using one id with different definitions, or a colliding pair in use; distinct by hash"
 
@@ -187,9 +187,13 @@ func mapped4(a []byte) string {
 	return hex.EncodeToString(a)
 }
 
-func genC04(t *rapid.T, proto string, env *wire.GenEnv) c04Case {
+func genC04(t *rapid.T, proto string, env *wire.GenEnv, opts ...string) c04Case {
 	findCollisions()
 	c := c04Case{Proto: proto}
+	allowEmpty := false
+	for _, o := range opts {
+		allowEmpty = allowEmpty || o == "empty"
+	}
 	forms := map[string]int{} // IPv4 address -> octet length used in this history
 	okAddr := func(a []byte) bool {
 		k := mapped4(a)
@@ -274,6 +278,9 @@ func genC04(t *rapid.T, proto string, env *wire.GenEnv) c04Case {
 			}
 			for k, nd := 0, rapid.IntRange(1, 3).Draw(t, "multidata"); k < nd; k++ {
 				j := same[rapid.IntRange(0, len(same)-1).Draw(t, "multidataslot")]
+				if model[j].MinRecordLen() == 0 {
+					continue
+				}
 				ds := env.GenDataSet(t, model[j], 3)
 				op.Sets = append(op.Sets, c04MixedSet{Slot: j, Recs: ds.Recs, Pad: ds.Pad})
 			}
@@ -294,7 +301,7 @@ func genC04(t *rapid.T, proto string, env *wire.GenEnv) c04Case {
 			ns := rapid.IntRange(2, 5).Draw(t, "mixedsets")
 			for k := 0; k < ns; k++ {
 				j := same[rapid.IntRange(0, len(same)-1).Draw(t, "mixedslot")]
-				if local[j] == nil || rapid.IntRange(0, 2).Draw(t, "mixedannounce") == 0 {
+				if local[j] == nil || local[j].MinRecordLen() == 0 || rapid.IntRange(0, 2).Draw(t, "mixedannounce") == 0 {
 					var tp wire.Template
 					if local[j] != nil && rapid.IntRange(0, 2).Draw(t, "mixedredef") == 0 {
 						tp = redefineSameLength(t, env, local[j])
@@ -321,6 +328,15 @@ func genC04(t *rapid.T, proto string, env *wire.GenEnv) c04Case {
 		case cur == nil || kind <= 3:
 			var tp wire.Template
 			switch {
+			case allowEmpty && cur != nil && cur.MinRecordLen() > 0 && rapid.IntRange(0, 5).Draw(t, "emptyredef") == 0:
+				// the id is re-announced with fields of length zero: records of it cannot be delimited any more, data
+				// naming it is reported and yields nothing — in particular not records of the superseded definition
+				tp = wire.Template{ID: cur.ID}
+				for k, nz := 0, rapid.IntRange(1, 3).Draw(t, "nzero"); k < nz; k++ {
+					f := env.GenField(t)
+					f.Len = 0
+					tp.Fields = append(tp.Fields, f)
+				}
 			case cur != nil && rapid.IntRange(0, 2).Draw(t, "redefkind") == 0:
 				tp = redefineSameLength(t, env, cur)
 			case cur != nil && rapid.IntRange(0, 1).Draw(t, "redefkind2") == 0:
@@ -341,7 +357,7 @@ func genC04(t *rapid.T, proto string, env *wire.GenEnv) c04Case {
 				tp = env.GenTemplate(t, c.Slots[slot].ID)
 			}
 			op := c04Op{Op: "announce", Slot: slot, Tpl: &tp}
-			if rapid.IntRange(0, 2).Draw(t, "withdata") == 0 {
+			if tp.MinRecordLen() > 0 && rapid.IntRange(0, 2).Draw(t, "withdata") == 0 {
 				op.Op = "announce+data"
 				ds := env.GenDataSet(t, &tp, 3)
 				op.Recs, op.Pad = ds.Recs, ds.Pad
@@ -349,6 +365,11 @@ func genC04(t *rapid.T, proto string, env *wire.GenEnv) c04Case {
 			c.Ops = append(c.Ops, op)
 			model[slot] = &tp
 		default:
+			if cur.MinRecordLen() == 0 {
+				// data naming a template that describes empty records: the runner sends an arbitrary body
+				c.Ops = append(c.Ops, c04Op{Op: "data", Slot: slot})
+				continue
+			}
 			ds := env.GenDataSet(t, cur, 4)
 			c.Ops = append(c.Ops, c04Op{Op: "data", Slot: slot, Recs: ds.Recs, Pad: ds.Pad})
 		}
@@ -430,6 +451,7 @@ func runC04x(c *c04Case) (v verdict, sig string, err error, cache *flowCache, mo
 	dataAfterRe := false
 	inMsgRe := false // data, re-announcement, data of one id inside one message
 	multiTplSet := false
+	emptyRedef := false
 	seq := uint32(1)
 	var cur *c04Op
 	nonMonotonic := false
@@ -554,6 +576,21 @@ func runC04x(c *c04Case) (v verdict, sig string, err error, cache *flowCache, mo
 				return v, "", fmt.Errorf("bad case: data before announce at step %d", i), cache, model
 			}
 			m := hdr()
+			if tp.MinRecordLen() == 0 {
+				m.Sets = append(m.Sets, wire.Set{Kind: "raw", RawID: sl.ID, RawBody: []byte{1, 2, 3, 4, 5, 6, 7, 8, 9, 10, 11, 12}})
+				res, perr := cache.decodeFlow(addr, m.Bytes())
+				if perr != nil {
+					return v, "panic", step("%v", perr), cache, model
+				}
+				if len(res.Recs) != 0 {
+					return v, "stale-template", step("the exporter's latest template for this id describes empty records, yet the data set yielded %d records (decoded with a superseded definition)", len(res.Recs)), cache, model
+				}
+				if res.Err == nil {
+					return v, "not-reported", step("data naming a template that describes empty records is not reported"), cache, model
+				}
+				emptyRedef = true
+				continue
+			}
 			m.Sets = append(m.Sets, wire.Set{Kind: "data", Tpl: tp, Recs: op.Recs, Pad: op.Pad})
 			if len(m.Bytes()) > 65507 {
 				// does not fit a datagram: outside the domain; the history ends here
@@ -660,6 +697,7 @@ func runC04x(c *c04Case) (v verdict, sig string, err error, cache *flowCache, mo
 	v.label(dataAfterRe, "data-after-reannouncement")
 	v.label(inMsgRe, "data-reannounce-data-in-one-message")
 	v.label(multiTplSet, "several-template-records-in-one-set")
+	v.label(emptyRedef, "data-after-redefinition-with-zero-length-fields")
 	v.label(nonMonotonic, "drawn-sequence-numbers-and-domains")
 	v.label(sharedID, "one-id-different-definitions")
 	for _, op := range c.Ops {
@@ -684,7 +722,7 @@ func TestC04(t *testing.T) {
 	envs := map[string]*wire.GenEnv{"ipfix": wire.NewGenEnv("ipfix"), "nf9": wire.NewGenEnv("nf9")}
 	rapid.Check(t, func(t *rapid.T) {
 		proto := rapid.SampledFrom([]string{"ipfix", "nf9"}).Draw(t, "proto")
-		c := genC04(t, proto, envs[proto])
+		c := genC04(t, proto, envs[proto], "empty")
 		v, sig, err := runC04(&c)
 		col.report(t, mustJSON(c), v, sig, err)
 	})
